@@ -226,7 +226,48 @@ def rule_r4(facts, rep, rid="C14-R4"):
         rep.violation(rid, key, "BasePath::directory does not decode the base url with Url::to_file_path", d.loc)
 
 
+LASTDOT = {"with_extension", "set_extension", "file_stem", "extension", "file_prefix", "with_file_name"}
+
+# audited last-dot API uses: (fn suffix, method, ordinal) -> reason
+LASTDOT_OK = {
+    ("liwe::fs::new_for_path_rec", "extension", 0): "query only: selects the files whose extension is exactly `md`; the name itself is not rewritten",
+}
+
+
+def rule_r5(facts, rep, rid="C14-R5"):
+    """Note names may contain dots (`release-1.2`, `x.md.md`): the `.md` suffix is handled by exact suffix tests, never by the std / relative_path
+    'extension = text after the last dot' APIs."""
+    n = 0
+    for f in facts.body_fns():
+        if f.crate not in ("liwe", "iwes", "iwe") or f.kind == "closure" or "::tests::" in f.def_ or "::test::" in f.def_:
+            continue
+        counts = {}
+        for x in fb.walk(f.body):
+            if x.get("k") != "mcall" or x["name"] not in LASTDOT:
+                continue
+            cal = fb.callee(x) or ""
+            if not cal.startswith(("std::path::", "relative_path::", "camino::")):
+                continue
+            rep.saw_fn(f)
+            i = counts.get(x["name"], 0)
+            counts[x["name"]] = i + 1
+            n += 1
+            key = "%s|%s|%d" % (f.def_, x["name"], i)
+            why = None
+            for (fs, mm, oo), reason in LASTDOT_OK.items():
+                if f.def_.endswith(fs) and mm == x["name"] and oo == i:
+                    why = reason
+            if why:
+                rep.ok(rid, key, "audited: " + why, loc(f, x), nontrivial=False)
+            else:
+                rep.violation(rid, key, "`.%s(..)` (%s) in %s treats whatever follows the LAST dot of a note name as its extension: `release-1.2` becomes `release-1`, `x.md.md` becomes `x.md` -> "
+                              "the file, its URI and its key name different notes" % (x["name"], fb.last2(cal), f.def_), loc(f, x))
+    rep.ok(rid, "last-dot-extension-api|inventory", "%d use(s) of path-extension APIs in the workspace" % n, None, nontrivial=False)
+
+
 def run(facts, rep, tier):
+    rep.rule("C14-R5", "Note names may contain dots: no std::path / relative_path `extension = text after the last dot` API (with_extension, set_extension, file_stem, ...) is applied to "
+             "note names, keys or urls, except the audited query in the directory scan.")
     rep.rule("C14-R4", "Unit discipline inside BasePath: every url -> path conversion decodes through Url::to_file_path; raw (percent-encoded) views of a url are confined to the audited fallback.")
     rep.rule("C14-R1", "No repeated-pattern trimming for prefix/suffix removal: str::trim_{end,start}_matches with a multi-character string pattern is not used "
              "anywhere in the workspace (it strips all repetitions); the key-deriving fns still strip the suffix/prefix (once).")
@@ -238,3 +279,4 @@ def run(facts, rep, tier):
     rule_r2(facts, rep)
     rule_r3(facts, rep)
     rule_r4(facts, rep)
+    rule_r5(facts, rep)
